@@ -253,6 +253,16 @@ def roundtrip_cases():
                 shapes["LabelledGraph_%dpts_%dedges" % (npts, ne)] = lambda Q=Q, ea=ea, half=half: ms.LabelledPointUndirectedGraph.init_from_edges(
                     Q, ea, OrderedDict([("first", half.copy()), ("rest", ~half | (np.arange(len(half)) == 0))]))
                 shapes["PointUndirectedGraph_%dpts_%dedges" % (npts, ne)] = lambda Q=Q, ea=ea: ms.PointUndirectedGraph.init_from_edges(Q, ea)
+        # a self connection given through the ADJACENCY MATRIX (a non-zero diagonal entry) - the graph has the edge (3, 3) whatever the
+        # edge-list constructor would have made of it; the file lists it and the reader has to bring it back
+        def _loop_adj(P=P):
+            A = np.zeros((5, 5), dtype=int)
+            for a_, b_ in ((0, 1), (1, 2), (3, 3)):
+                A[a_, b_] = A[b_, a_] = 1
+            return A
+        shapes["PointUndirectedGraphSelfLoopFromAdjacency"] = lambda P=P, _loop_adj=_loop_adj: ms.PointUndirectedGraph(P, _loop_adj())
+        shapes["LabelledGraphSelfLoopFromAdjacency"] = lambda P=P, _loop_adj=_loop_adj: ms.LabelledPointUndirectedGraph(
+            P, _loop_adj(), OrderedDict([("all", np.ones(5, bool))]))
         for n, f in shapes.items():
             out.append(("ljson %dD %s" % (d, n), "ljson", "rt.ljson", f))
     for fname in ("e.ljson", "e.v2.pts", "e.png", "e.pkl", "e.pkl.gz"):
